@@ -8,7 +8,7 @@ import (
 
 func init() {
 	registerProperty(&Property{
-		ID: "C13",
+		ID:          "C13",
 		Explanation: "Decides structural necessary conditions of cache transparency and completeness: (R1) the write-through reader commits (closes) the cache file only on a path where the upstream read returned end-of-stream, the last frame was written without error and the compressor was closed first; on an upstream error it discards the file; nothing else closes the file; (R2) for a shard the environment marks cached, compile replaces the task's computation by the cache reader of that shard, drops its dependencies and skips the operator, and cache presence is read/recorded only while the environment is writable; (R3) RequireAllCached clears every entry as soon as one shard is missing, Cache and ReadCache call it and CachePartial does not, and reading an uncached shard is an error reader; (R4 = C08-R5) the environment that travels to workers is frozen; (R5) no error of creating, compressing, writing or closing the cache file, or of reading it back, is dropped. Not decided: atomicity of grailbio/base file.File.Close itself, row-level transparency.",
 		Rules: []Rule{
 			{ID: "C13-R1", Doc: "cache file committed only at clean end-of-stream", Run: c13r1},
